@@ -11,12 +11,12 @@ DEMO_PATH=$(python3 -c "import json;print(json.load(open('$META'))['demo_path_in
 DEMO_CMD=$(python3 -c "import json;print(json.load(open('$META'))['demo_run_cmd'])" 2>/dev/null)
 DEMO_FILE=$(ls $S/*_test.go | head -1)
 # the agents used /tmp/wt-Ax paths in commands: rewrite to this worktree
-DEMO_CMD=$(echo "$DEMO_CMD" | sed "s#/tmp/wt-A[0-9]#$WT#g")
+DEMO_CMD=$(echo "$DEMO_CMD" | sed "s#/tmp/wt-[A-Z][0-9]*#$WT#g")
 case "$DEMO_PATH" in
   *_test.go) DEST=$WT/$DEMO_PATH ;;
   *) DEST=$WT/$DEMO_PATH/$(basename $DEMO_FILE) ;;
 esac
-DEST=$(echo "$DEST" | sed "s#$WT//tmp/wt-A[0-9]/#$WT/#; s#$WT/$WT#$WT#")
+DEST=$(echo "$DEST" | sed "s#$WT//tmp/wt-[A-Z][0-9]*/#$WT/#; s#$WT/$WT#$WT#")
 mkdir -p $(dirname $DEST); cp $DEMO_FILE $DEST
 echo "demo: $DEST ; cmd: $DEMO_CMD" >> $OUT
 # 1. demo passes without the change
